@@ -106,10 +106,14 @@ IdemDom(c) == c.cls \in {"bits", "linear"} \/ (c.cls = "relu" /\ c.sl = 0)
 \* hard sigmoid exactly as float32 evaluates clip(0.5*x + 0.5, 0, 1); hard tanh = 2*sigmoid - 1
 HardSig(x) == DClip(Add32(Scale2(x, -1), Half), Zero, One)
 HardTanh(x) == Add32(Scale2(HardSig(x), 1), <<-1, 0>>)
+\* set_internal_sigmoid("smooth"): clip(0.1875*x + 0.5, 0, 1) in float32 (one rounding in the product, one in the sum);
+\* the mode is a global of the library, read when the quantizer is CALLED
+SmoothSig(x) == DClip(Add32(Mul32(<<3, -4>>, x), Half), Zero, One)
+SigOf(c, x) == IF "sig" \in DOMAIN c /\ c.sig = "smooth" THEN SmoothSig(x) ELSE HardSig(x)
 \* argument whose position on the step grid decides the code
 SurrArg(c, x) ==
-  CASE c.cls = "tanh" -> HardTanh(x)
-    [] c.cls = "sigmoid" -> HardSig(x)
+  CASE c.cls = "tanh" -> Add32(Scale2(SigOf(c, x), 1), <<-1, 0>>)
+    [] c.cls = "sigmoid" -> SigOf(c, x)
     [] c.cls = "linear" -> Scale2(x, -Log2Exact(c.al))        \* x / alpha, alpha a power of two (Dom)
     [] OTHER -> x
 Pos(c, x) == QPos(SurrArg(c, x), StepE(c))
